@@ -150,9 +150,16 @@ macro_rules! build_functor {
     ([functor($stub:expr) $(, $dt:ident($($value:tt),*))*], [$($res:expr),*], $res_len:expr, [$($subfunctor:expr),*]) => ({
         let result_len = 1u64 + count!($($dt)*) + $res_len;
         let inner_functor_size = cell_index!(Heap::compute_functor_byte_size(&$stub)) as u64;
+        // a one-cell stub is an atom (or another constant): refer to the cell itself,
+        // a Str cell must never point at an arity-0 atom
+        let inner_cell = if inner_functor_size > 1 {
+            str_loc_as_cell!(result_len)
+        } else {
+            heap_loc_as_cell!(result_len)
+        };
 
         build_functor!([$($dt($($value),*)),*],
-                       [$($res, )* FunctorElement::Cell(str_loc_as_cell!(result_len))],
+                       [$($res, )* FunctorElement::Cell(inner_cell)],
                        1 + $res_len + inner_functor_size,
                        [$($subfunctor, )*
                         FunctorElement::InnerFunctor(inner_functor_size, $stub)])
